@@ -29,7 +29,7 @@ SPEC = {
              "singular); distinct = those classes; non-trivial = n >= 2"),
     "boundscheck": {"quick": False, "thorough": False},
     "case_timeout": 120.0,
-    "deciding_monitors": ["update:ConjugateGradient"],
+    "deciding_monitors": ["update:ConjugateGradient", "in:layout:strided"],
     "assumptions": ["dense references in float64, n <= 12, cond <= 1e3 (x cond(P) <= 10)"],
 }
 
